@@ -34,12 +34,76 @@ type bodyElement struct {
 }
 
 // paragraphXML represents a paragraph element (<w:p>).
+//
+// Runs holds the paragraph's runs in document order, including the runs nested
+// in inline containers (hyperlinks, tracked insertions and moves, content
+// controls, smart tags, simple fields); see UnmarshalXML.
 type paragraphXML struct {
 	XMLName       xml.Name          `xml:"p"`
 	Properties    paragraphPropsXML `xml:"pPr"`
 	Runs          []runXML          `xml:"r"`
 	Hyperlinks    []hyperlinkXML    `xml:"hyperlink"`
 	BookmarkStart []bookmarkXML     `xml:"bookmarkStart"`
+}
+
+// UnmarshalXML decodes a paragraph keeping its runs in document order. A run may
+// be a direct child of the paragraph or sit inside an inline container such as
+// <w:hyperlink>, <w:ins> or <w:sdt><w:sdtContent>; mapping these to separate
+// fields would drop the container's text or move it to the end of the paragraph.
+func (p *paragraphXML) UnmarshalXML(d *xml.Decoder, start xml.StartElement) error {
+	p.XMLName = start.Name
+	return p.decodeContent(d)
+}
+
+// decodeContent reads child elements up to the end tag of the current element,
+// descending into inline containers.
+func (p *paragraphXML) decodeContent(d *xml.Decoder) error {
+	for {
+		token, err := d.Token()
+		if err != nil {
+			return err
+		}
+
+		switch t := token.(type) {
+		case xml.EndElement:
+			return nil
+		case xml.StartElement:
+			switch t.Name.Local {
+			case "pPr":
+				err = d.DecodeElement(&p.Properties, &t)
+			case "r":
+				var run runXML
+				if err = d.DecodeElement(&run, &t); err == nil {
+					p.Runs = append(p.Runs, run)
+				}
+			case "bookmarkStart":
+				var bm bookmarkXML
+				if err = d.DecodeElement(&bm, &t); err == nil {
+					p.BookmarkStart = append(p.BookmarkStart, bm)
+				}
+			case "hyperlink":
+				link := hyperlinkXML{}
+				for _, attr := range t.Attr {
+					if attr.Name.Local == "id" {
+						link.ID = attr.Value
+					}
+				}
+				first := len(p.Runs)
+				if err = p.decodeContent(d); err == nil {
+					link.Runs = append(link.Runs, p.Runs[first:]...)
+					p.Hyperlinks = append(p.Hyperlinks, link)
+				}
+			case "ins", "moveTo", "sdt", "sdtContent", "smartTag", "fldSimple":
+				err = p.decodeContent(d)
+			default:
+				// Deleted text, properties of containers, bookmarks ends, ...
+				err = d.Skip()
+			}
+			if err != nil {
+				return err
+			}
+		}
+	}
 }
 
 // paragraphPropsXML represents paragraph properties (<w:pPr>).
